@@ -56,6 +56,16 @@ op("bool_land", "m && m2", "MM", ALL_TYPES, "M")
 op("bool_lor", "m || m2", "MM", ALL_TYPES, "M")
 
 
+# C06: conversions between same-width element types
+CAST_PAIRS = {"i8": ["u8"], "u8": ["i8"], "i16": ["u16"], "u16": ["i16"], "i32": ["u32", "f32"], "u32": ["i32", "f32"], "f32": ["i32", "u32"],
+              "i64": ["u64", "f64"], "u64": ["i64", "f64"], "f64": ["i64", "u64"]}
+for _src, _dsts in CAST_PAIRS.items():
+    for _d in _dsts:
+        op("batch_cast_to_%s" % _d, "xsimd::batch_cast<%s>(a)" % TYPES[_d][0], "B", [t for t in CAST_PAIRS if _d in CAST_PAIRS[t]], "R:" + _d)
+        op("bitwise_cast_to_%s" % _d, "xsimd::bitwise_cast<%s>(a)" % TYPES[_d][0], "B", [t for t in CAST_PAIRS if _d in CAST_PAIRS[t]], "R:" + _d)
+op("to_int", "xsimd::to_int(a)", "B", FLOAT_TYPES, "R:int")
+op("to_float", "xsimd::to_float(a)", "B", ["i32", "i64"], "R:float")
+op("nearbyint_as_int", "xsimd::nearbyint_as_int(a)", "B", FLOAT_TYPES, "R:int")
 # C04
 op("load_aligned", "B::load_aligned(p)", "p", ALL_TYPES)
 op("load_unaligned", "B::load_unaligned(p)", "p", ALL_TYPES)
@@ -91,7 +101,15 @@ def entry_text(opn, tid, aid):
             params.append("%s const* %s" % (T, nm))
         elif k == "q":
             params.append("%s* %s" % (T, nm))
-    R = {"B": B, "M": M, "X": "uint64_t"}[ret]
+    if ret.startswith("R:"):
+        d = ret[2:]
+        if d == "int":
+            d = {"f32": "i32", "f64": "i64"}[tid]
+        elif d == "float":
+            d = {"i32": "f32", "i64": "f64"}[tid]
+        R = "xsimd::batch<%s, %s>" % (TYPES[d][0], A)
+    else:
+        R = {"B": B, "M": M, "X": "uint64_t"}[ret]
     return 'extern "C" void %s(%s* r%s) { typedef %s B; %s *r = %s; }\n' % (entry_name(opn, tid, aid), R, "".join(", " + p for p in params),
                                                                          B, " ".join(prologue), expr)
 
